@@ -850,10 +850,17 @@ def partial_clauses(prop):
         "name without the separator itself occurring (a name starting / ending with such a character is mangled by the "
         "character-set lstrip/rstrip: C06_dict_roundtrip_multichar_refuted = known finding K3-C06); names that merely contain "
         "such a character in the middle are outside the proved guard but are not known to fail",
-        "frame round trip: equality up to attribute order and without null-valued attributes (frames cannot represent them; "
-        "dataframe_to_tree documents that nulls are not set), no attribute called 'path'",
-        "round trips are stated for the full export of the whole tree; re-importing a partial export "
-        "(inner start node, gates, attr_dict renaming) is checked by correspondence on the export side only",
+        "frame round trip, now exact: C06_dataframe_roundtrip_nulls / C06_polars_roundtrip_nulls (re-imported tree = source tree "
+        "with exactly the null-valued attributes removed), C06_frame_columns_first_seen + C06_dataframe_attr_order (columns = keys "
+        "in first-seen order over the pre-order records; every re-imported node carries, in column order, its non-null cells -- no "
+        "sorting in the statement).  Still restricted: no attribute called 'path'; a missing cell and a None cell are one null in the "
+        "frame model (cells are not modelled as option val)",
+        "partial exports: records = records of the selected nodes for every gate combination and start node (proved); re-import "
+        "proved for max_depth from the root (C06_dict_roundtrip_max_depth: the source cut below max_depth).  NOT proved in general, "
+        "only shown on the model and replayed on /repo (C06_partial_reimport_shapes): skip_depth / leaf_only / inner start node, where "
+        "dict_to_tree re-creates the missing ancestors as bare nodes; the frame and nested variants of the partial re-import",
+        "umbrella C06_all_formats / C06_all_formats_onechar: the property decision holds of the model for the four exports (any start "
+        "node, any options) and the four full round trips with default constructor arguments",
         "theorems cover the constructors' default arguments; duplicate_name_allowed=False and a caller-chosen name_key / "
         "child_key of the nested pair are modelled (grow_nodup, rt_nested_with) and checked by correspondence, not proved",
         # accepted blind spots of the correspondence (audit of 2026-10-01)
